@@ -23,6 +23,7 @@ import (
 	"sync/atomic"
 	"testing"
 	"testing/synctest"
+	"time"
 
 	"github.com/prometheus/prometheus/internal/verif/vx"
 )
@@ -154,9 +155,22 @@ func (e *Engine) startBubble(mk func() World) (*bubble, resp) {
 	return b, <-b.out
 }
 
+// HangAfter is a REAL-time guard (the only use of the wall clock, and never part of an oracle):
+// an event that does not reach quiescence within it (typically a goroutine of the bubble blocked
+// on a sync.Mutex, which synctest does not regard as durably blocked) crashes the run as a tool
+// failure instead of hanging the check.
+var HangAfter = 120 * time.Second
+
 func (b *bubble) call(rq req) resp {
 	b.in <- rq
-	return <-b.out
+	tm := time.NewTimer(HangAfter)
+	defer tm.Stop()
+	select {
+	case rs := <-b.out:
+		return rs
+	case <-tm.C:
+		panic(fmt.Sprintf("evloop: event %q did not reach quiescence within %v (a goroutine blocked on a mutex?)", rq.op, HangAfter))
+	}
 }
 
 func (b *bubble) close() {
